@@ -139,7 +139,7 @@ where T: CoordinateScalar, U: DataType {
     vertices
 }
 fn vtx1(id: u8) -> Vertex<f64, u8, 2> {
-    vtx2(f64::from(id), 0.5, id)
+    vtx2(id as f64, 0.5, id)
 }
 
 #[kani::proof]
